@@ -227,7 +227,13 @@ def run(ctx) -> None:
                     return True
         return False
     loops = [n for n in source.walk_own(lrp) if isinstance(n, ast.For) and isinstance(n.iter, ast.Name)
-             and any(last_attr(c) == "append" and dotted(c.func.value) == "agg_references" for c in source.calls_in(n))]
+             and any(last_attr(c) == "append" and isinstance(c.func.value, ast.Name)
+                     and any(isinstance(v, ast.List) and not v.elts for v in match.assigned_value(lrp, c.func.value.id))
+                     for c in source.calls_in(n))
+             # the loop over the instances a placeholder represents (directly or through a sorted copy)
+             and any("represents" in source.src(v) or any(isinstance(x, ast.Name) and any("represents" in source.src(w)
+                     for w in match.assigned_value(lrp, x.id)) for x in ast.walk(v))
+                     for v in match.assigned_value(lrp, n.iter.id))]
     ctx.require(bool(loops), "anchor missing: loop building agg_references in looped_reference_to_paths")
     itname = loops[0].iter.id
     consumer_sorts = any(numeric_sorted(v) for v in match.assigned_value(lrp, itname))
@@ -286,6 +292,13 @@ def run(ctx) -> None:
     rew = [n for n in cfg.nodes if n.kind == "stmt" and isinstance(n.ast, ast.Assign) and isinstance(n.ast.value, ast.BinOp)
            and isinstance(n.ast.value.op, ast.Mod) and isinstance(n.ast.value.left, ast.Constant) and n.ast.value.left.value == "%d#%s"]
     ctx.require(bool(rew), "anchor missing: '%d#%s' rewrite of the loop-binding producer in instantiate_dowhile")
+    # roles: (stage, producer, file, method) unpacked from ParseDataReferenceFull of a loop-binding value
+    unp = [n.targets[0] for n in source.walk_own(idw) if isinstance(n, ast.Assign) and isinstance(n.targets[0], ast.Tuple)
+           and len(n.targets[0].elts) == 4 and all(isinstance(e, ast.Name) for e in n.targets[0].elts)
+           and isinstance(n.value, ast.Call) and last_attr(n.value) == "ParseDataReferenceFull"]
+    PRODUCER = rew[0].ast.targets[0].id if isinstance(rew[0].ast.targets[0], ast.Name) else "producer"
+    mine = [t for t in unp if t.elts[1].id == PRODUCER]
+    METHOD = mine[0].elts[3].id if mine else "method"
     gt0 = match.test_nodes(cfg, lambda t: "T" if (match.compare_parts(t) and isinstance(match.compare_parts(t)[0], ast.Name)
                                                   and match.compare_parts(t)[0].id == "iteration_no"
                                                   and isinstance(match.compare_parts(t)[1], ast.Gt)
@@ -294,7 +307,7 @@ def run(ctx) -> None:
     notloop = []
     for n in cfg.nodes:
         if n.kind == "test" and isinstance(n.ast, ast.Compare) and isinstance(n.ast.ops[0], (ast.NotIn, ast.In)) \
-                and isinstance(n.ast.left, ast.Name) and n.ast.left.id == "method" \
+                and isinstance(n.ast.left, ast.Name) and n.ast.left.id == METHOD \
                 and isinstance(n.ast.comparators[0], (ast.List, ast.Tuple, ast.Set)):
             vals = {e.value for e in n.ast.comparators[0].elts if isinstance(e, ast.Constant)}
             if vals == {"loopref", "loopoutput"}:
@@ -304,7 +317,7 @@ def run(ctx) -> None:
         ok = isinstance(args, ast.Tuple) and len(args.elts) == 2 and isinstance(args.elts[0], ast.BinOp) \
             and isinstance(args.elts[0].op, ast.Sub) and isinstance(args.elts[0].left, ast.Name) \
             and args.elts[0].left.id == "iteration_no" and isinstance(args.elts[0].right, ast.Constant) \
-            and args.elts[0].right.value == 1 and isinstance(args.elts[1], ast.Name) and args.elts[1].id == "producer"
+            and args.elts[0].right.value == 1 and isinstance(args.elts[1], ast.Name) and args.elts[1].id == PRODUCER
         ctx.ob("C05.R3-loop-carried-from-previous", r_.ast, ok, "loop-carried inputs come from iteration_no - 1" if ok else
                "the loop-binding producer is not prefixed with iteration_no - 1: instance i reads from the wrong iteration")
         ok = bool(gt0) and match.only_via_edges(cfg, r_, gt0)
@@ -314,6 +327,7 @@ def run(ctx) -> None:
         ok = bool(notloop) and match.only_via_edges(cfg, r_, notloop)
         ctx.ob("C05.R3-loop-carried-from-previous", r_.ast, ok, "aggregate loop references (loopref/loopoutput) keep the placeholder" if ok else
                "loopref/loopoutput bindings are pinned to a single iteration", construct=short(r_.ast) + " <- method not in [loopref, loopoutput]")
+    LOOPB = match.role(idw, lambda v: isinstance(v, ast.Call) and last_attr(v) == "rewrite_loopbindings_for_stage_offset", "loop_bindings")
     upd = match.nodes_calling(cfg, lambda c: last_attr(c) == "update" and dotted(c.func.value) == "bindings")
     for u in upd:
         ok = bool(gt0) and match.only_via_edges(cfg, u, gt0)
@@ -324,7 +338,7 @@ def run(ctx) -> None:
     bvals = match.assigned_value(idw, "bindings")
     ok = any(isinstance(v, ast.DictComp) and len(v.generators) == 1 and len(v.generators[0].ifs) == 1
              and isinstance(v.generators[0].ifs[0], ast.Compare) and isinstance(v.generators[0].ifs[0].ops[0], ast.NotIn)
-             and dotted(v.generators[0].ifs[0].comparators[0]) == "loop_bindings" for v in bvals)
+             and dotted(v.generators[0].ifs[0].comparators[0]) == LOOPB for v in bvals)
     ctx.ob("C05.R3-loop-carried-from-previous", bvals[0] if bvals else idw, ok, "only loop-bound inputs are replaced; other inputs keep the original bindings" if ok else
            "the original bindings are not preserved for inputs that are not loop-bound",
            construct="bindings = {k: v for k in bindings if k not in loop_bindings}")
@@ -335,7 +349,7 @@ def run(ctx) -> None:
         and dotted(t.value) == "new_dw_template" for t in n.targets)]
     for s_ in stores:
         names = set(source.names_in(s_.value))
-        ok = "loop_bindings" not in names and not any(isinstance(x, ast.Call) and last_attr(x) == "rewrite_loopbindings_for_stage_offset"
+        ok = LOOPB not in names and not any(isinstance(x, ast.Call) and last_attr(x) == "rewrite_loopbindings_for_stage_offset"
                                                       for x in ast.walk(s_.value))
         ctx.ob("C05.R4-no-stage-offset-drift", s_, ok, "the stored loopBindings are not the stage-offset-rewritten ones" if ok else
                "the stage-offset-rewritten loop bindings are stored back into the document: the offset is added again at "
@@ -411,10 +425,16 @@ def run(ctx) -> None:
     # ---------------- R6 -------------------------------------------------------------------------------
     cds = g.func("WorkflowGraph.compute_dowhile_state")
     ctx.analysed(cds)
-    lat = match.assigned_value(cds, "latest")
+    # roles: the descending list of condition instances (a sorted(.., reverse=True) of a filter over the looped ids) and
+    # its first element
+    CINST = match.role(cds, lambda v: isinstance(v, ast.Call) and call_name(v) == "sorted" and any(
+        k.arg == "reverse" for k in v.keywords), "condition_instances")
+    LATEST = match.role(cds, lambda v: isinstance(v, ast.Subscript) and isinstance(v.slice, ast.Constant) and v.slice.value == 0
+                        and dotted(v.value) == CINST, "latest")
+    lat = match.assigned_value(cds, LATEST)
     ok = any(isinstance(v, ast.Subscript) and isinstance(v.slice, ast.Constant) and v.slice.value == 0
-             and dotted(v.value) == "condition_instances" for v in lat)
-    ci = match.assigned_value(cds, "condition_instances")
+             and dotted(v.value) == CINST for v in lat)
+    ci = match.assigned_value(cds, CINST)
     ok2 = any(isinstance(v, ast.Call) and call_name(v) == "sorted" and any(
         k.arg == "reverse" and isinstance(k.value, ast.Constant) and k.value.value is True for k in v.keywords) for v in ci)
     ctx.ob("C05.R6-state-from-latest", lat[0] if lat else cds, ok and ok2,
@@ -468,10 +488,21 @@ def run(ctx) -> None:
         d = dict(zip([k.value for k in st[0].value.keys], st[0].value.values))
         cc = match.assigned_value(cds, d["currentCondition"].id) if isinstance(d["currentCondition"], ast.Name) else []
         ci2 = match.assigned_value(cds, d["currentIteration"].id) if isinstance(d["currentIteration"], ast.Name) else []
-        ok = any("latest_cond_id" in source.names_in(v) for v in cc) and any(
-            "latest_cond_id" in source.names_in(v) and isinstance(v, ast.Call) and call_name(v) == "int" for v in ci2)
-        lc = match.assigned_value(cds, "latest_cond_id")
-        ok = ok and any({"stage_index", "producer"} <= set(source.names_in(v)) for v in lc)
+        # everything must derive (transitively) from LATEST
+        from_latest = {LATEST}
+        grow = True
+        while grow:
+            grow = False
+            for n_ in source.walk_own(cds):
+                if isinstance(n_, ast.Assign):
+                    tnames = [x.id for t in n_.targets for x in ast.walk(t) if isinstance(x, ast.Name)]
+                    if from_latest & set(source.names_in(n_.value)):
+                        for tn_ in tnames:
+                            if tn_ not in from_latest:
+                                from_latest.add(tn_)
+                                grow = True
+        ok = any(from_latest & set(source.names_in(v)) for v in cc) and any(
+            from_latest & set(source.names_in(v)) and isinstance(v, ast.Call) and call_name(v) == "int" for v in ci2)
     ctx.ob("C05.R6-state-from-latest", st[0] if st else cds, ok,
            "currentCondition and currentIteration are computed from the latest instance" if ok else
            "currentCondition/currentIteration are not both derived from the latest instance",
